@@ -31,6 +31,7 @@ from .pre import Dither, PreProcessor, Preemphasize
 from .post import PostProcessor
 from .alias import alias_factory_subclass_from_arg
 from .util import read_signal
+from . import _verif
 
 try:
     from pydrobert.kaldi.logging import kaldi_vlog_level_cmd_decorator  # type: ignore
@@ -127,15 +128,25 @@ try:
             if signal.ndim != 1:
                 signal = signal[self.channel]
             signal = torch.from_numpy(signal)
+            _verif.emit("read", tool="torch", utt=utt_id, idx=idx, n=int(signal.shape[0]))
             for preprocessor in self.preprocessors:
                 signal = preprocessor(signal)
+                _verif.emit("pre", tool="torch", utt=utt_id, op=type(preprocessor).__name__)
             if self.computer is None:
                 feats = signal.unsqueeze(1)
+                _verif.emit("raw_column", tool="torch", utt=utt_id)
             else:
                 feats = self.computer(signal)
+                _verif.emit("compute", tool="torch", utt=utt_id, frames=int(feats.shape[0]))
             del signal
             for postprocessor in self.postprocessors:
                 feats = postprocessor(feats)
+                _verif.emit(
+                    "post",
+                    tool="torch",
+                    utt=utt_id,
+                    op=type(postprocessor.postprocessor).__name__,
+                )
             return utt_id, feats.float()
 
 except ImportError:
@@ -346,16 +357,23 @@ def compute_feats_from_kaldi_tables(args: Optional[Sequence[str]] = None) -> Non
             )
             continue
         buff = buff[cur_chan].astype(np.float64, copy=False)
+        _verif.emit("read", tool="kaldi", utt=utt_id, chan=int(cur_chan), n=int(len(buff)))
         for preprocessor in preprocessors:
             buff = preprocessor.apply(buff, in_place=True)
+            _verif.emit("pre", tool="kaldi", utt=utt_id, op=type(preprocessor).__name__)
         feats = computer.compute_full(buff)
+        _verif.emit("compute", tool="kaldi", utt=utt_id, frames=int(feats.shape[0]))
         if feats.shape[0]:
             # nothing to post-process when the utterance was too short for a frame
             for postprocessor in postprocessors:
                 feats = postprocessor.apply(feats, in_place=True)
+                _verif.emit(
+                    "post", tool="kaldi", utt=utt_id, op=type(postprocessor).__name__
+                )
         if not KaldiDataType.BaseMatrix.is_double:
             feats = feats.astype(np.float32)
         feat_writer.write(utt_id, feats)
+        _verif.emit("write", tool="kaldi", utt=utt_id)
         if num_utts % 10 == 0:
             logger.info("Processed {} utterances".format(num_utts))
         logger.log(9, "Processed features for key {}".format(utt_id))
@@ -603,14 +621,29 @@ def signals_to_torch_feat_dir(args=None):
     loader = torch.utils.data.DataLoader(dataset, num_workers=options.num_workers)
     if not os.path.isdir(options.dir):
         os.makedirs(options.dir)
+    _verif.emit("start", todo=list(utt2path), seed=seed, workers=options.num_workers)
     for utt_ids, feats in loader:
         utt_id, feat = utt_ids[0], feats[0]
+        _verif.emit("save_begin", utt=utt_id)
+        _verif.crashpoint(
+            "before_save",
+            obj=feat,
+            path=os.path.join(
+                options.dir, options.file_prefix + utt_id + options.file_suffix
+            ),
+        )
         torch.save(
             feat,
             os.path.join(
                 options.dir, options.file_prefix + utt_id + options.file_suffix
             ),
         )
+        _verif.emit("save_end", utt=utt_id)
+        _verif.crashpoint("after_save")
         if options.manifest is not None:
             print(utt_id, file=options.manifest, flush=True)
+            _verif.emit("manifest_print", utt=utt_id)
+            _verif.crashpoint("after_manifest_print")
+    _verif.emit("finish")
+    _verif.crashpoint("end_of_run")
     return 0
